@@ -80,6 +80,17 @@ func (ws *WritingState) Start(filenamePattern, path string, config *WriteControl
 	return ws.setExperimentStateLabel(time.Now(), "START")
 }
 
+// restoreReported puts back the client-visible settings saved (by ComputeState) before a START that failed.
+func (ws *WritingState) restoreReported(prev *WritingState) {
+	ws.Lock()
+	defer ws.Unlock()
+	ws.Paused = prev.Paused
+	ws.BasePath = prev.BasePath
+	ws.WriteLJH22 = prev.WriteLJH22
+	ws.WriteLJH3 = prev.WriteLJH3
+	ws.WriteOFF = prev.WriteOFF
+}
+
 // Stop will set the WritingState to be completely stopped
 func (ws *WritingState) Stop() error {
 	ws.Lock()
